@@ -152,6 +152,58 @@ def gen_xml(rng, size):
     return doc
 
 
+class _XStat:
+    def __init__(self):
+        self.acts, self.nodes, self.bodies, self.bodylen = [], 0, 0, 0
+
+
+def _strict_node(rng, depth, visited, st):
+    """a well-formed element and, when the traversal reaches it, the action of its callback; returns the bytes"""
+    name = rng.choice([b"a", b"ab", b"abc", b"b", b"Node", b"x1", b"a"])
+    attrs = b"".join(b' %s="%s"' % (rng.choice([b"k", b"id", b"x"]), bytes(rng.choice(b"abc012") for _ in range(rng.randint(0, 4))))
+                     for _ in range(rng.choice([0, 0, 1, 2, 8])))
+    r = rng.random()
+    if r < 0.2:
+        # an empty element: its name is never the name of an enclosing element — the closing-tag search of the current
+        # parser counts `<a/>` inside `<a>` as a nested opening tag (observed on the unchanged tree: `<a><a/></a>` read as
+        # body or skipped gives AWS_ERROR_INVALID_XML; C12's business, not a C04 clause)
+        name = rng.choice([b"e", b"br", b"nil"])
+        if visited:
+            st.nodes += 1
+            act = rng.choice("sb")
+            st.acts.append(act)
+            st.bodies += act == "b"
+        return b"<" + name + attrs + rng.choice([b"/>", b" />"])
+    act = None
+    if visited:
+        st.nodes += 1
+        act = rng.choice("dddbs")
+        st.acts.append(act)
+    inner = b""
+    if r < 0.55 or depth >= 6:
+        inner = bytes(rng.choice(b"abc xyz012>&;=/\"'\n") for _ in range(rng.randint(0, 12)))
+    else:
+        for _ in range(rng.randint(1, 4)):
+            if rng.random() < 0.3:
+                inner += bytes(rng.choice(b"abc >\n") for _ in range(rng.randint(0, 5)))
+            inner += _strict_node(rng, depth + 1, visited and act == "d", st)
+        if rng.random() < 0.3:
+            inner += b"\n"
+    if act == "b":
+        st.bodies += 1
+        st.bodylen += len(inner)
+    return b"<" + name + attrs + b">" + inner + b"</" + name + b">"
+
+
+def gen_xml_strict(rng):
+    """(document, ' prog=.. expect=nodes,bodies,bodylen'): a document inside the parser's documented limits together with a
+    callback program that only asks for what the API allows (no descend into an empty element); the outcome is then determined"""
+    st = _XStat()
+    pre = rng.choice([b"", b"", b'<?xml version="1.0" encoding="UTF-8"?>', b'<?xml version="1.0"?>\n<!DOCTYPE d>\n', b"\n "])
+    doc = pre + _strict_node(rng, 1, True, st) + rng.choice([b"", b"", b"\n"])
+    return doc, " prog=%s expect=%d,%d,%d" % ("".join(st.acts), st.nodes, st.bodies, st.bodylen)
+
+
 def xml_opts(rng):
     n = rng.randint(1, 12)
     prog = "".join(rng.choices("dbsa", weights=[55, 22, 18, 5], k=n))
@@ -187,6 +239,11 @@ def gen_json_value(rng, budget, depth):
 
 
 def gen_json_string(rng, n):
+    if rng.random() < 0.04:
+        # a run of control characters: each prints as \uXXXX (6 bytes), so the printer's size estimate is exercised right
+        # at the 256 / 512 / 1024-byte boundaries of its growing buffer
+        k = rng.choice([rng.randint(36, 56), rng.randint(80, 110), rng.randint(165, 215), rng.randint(1, 30)])
+        return b'"' + b"".join(b"\\u%04x" % rng.choice([1, 2, 0x0b, 0x1f, 0x10]) for _ in range(k)) + b'"'
     out = b'"'
     for _ in range(rng.randint(0, max(0, n))):
         r = rng.random()
@@ -195,7 +252,7 @@ def gen_json_string(rng, n):
         elif r < 0.8:
             out += rng.choice([b"\\n", b"\\t", b'\\"', b"\\\\", b"\\/", b"\\b", b"\\f", b"\\r"])
         elif r < 0.9:
-            out += b"\\u%04x" % rng.choice([0, 0x41, 0x7f, 0x80, 0x7ff, 0x800, 0xffff, 0xd800, 0xdbff, 0xdc00, 0xdfff, rng.randint(0, 0xffff)])
+            out += b"\\u%04x" % rng.choice([0, 1, 0x1f, 0x41, 0x7f, 0x80, 0x7ff, 0x800, 0xffff, 0xd800, 0xdbff, 0xdc00, 0xdfff, rng.randint(0, 0xffff)])
         elif r < 0.95:
             out += b"\\ud83d\\ude00"
         else:
@@ -204,6 +261,8 @@ def gen_json_string(rng, n):
 
 
 def gen_json(rng, size):
+    if rng.random() < 0.03:
+        return gen_json_string(rng, 0) if rng.random() < 0.5 else b"[" + b",".join(gen_json_string(rng, 3) for _ in range(rng.randint(1, 4))) + b"]"
     return gen_json_value(rng, max(size, 4), 0)
 
 
@@ -408,7 +467,7 @@ def gen_date(rng, size):
         if rng.random() < 0.8:
             out += rng.choice(WD) + b", "
         yy = b"%04d" % Y if rng.random() < 0.85 else b"%02d" % (Y % 100)
-        out += b"%02d %s %s %02d:%02d:%02d" % (D, rng.choice([MON[M - 1], MON[M - 1].upper(), MON[M - 1].lower()]), yy, h, m, s)
+        out += b"%02d %s %s %02d:%02d:%02d" % (D, rng.choice([MON[M - 1], MON[M - 1].upper(), MON[M - 1].lower()] * 4 + [MON[M - 1][:1], MON[M - 1][:2], MON[M - 1] + b"e", b"September", b"", b"J", b"Ja"]), yy, h, m, s)
         if rng.random() < 0.9:
             out += b" " + rng.choice(TZS)
         return out
@@ -432,7 +491,12 @@ def gen_date(rng, size):
 
 def gen_b64(rng, size):
     raw = rng.randbytes((size * 3) // 4)
-    return base64.b64encode(raw)
+    enc = bytearray(base64.b64encode(raw))
+    if enc and rng.random() < 0.2:
+        # padding characters in every position of the last quantum (and now and then elsewhere), non-zero trailing bits
+        i = len(enc) - 1 - rng.randrange(min(4, len(enc))) if rng.random() < 0.8 else rng.randrange(len(enc))
+        enc[i] = rng.choice(b"==A/+B") if rng.random() < 0.8 else rng.choice(b"\0 -_")
+    return bytes(enc)
 
 
 def gen_hex(rng, size):
@@ -540,7 +604,7 @@ def mutate(rng, parser, doc):
             i = rng.randint(0, n - 1)
             b[i:i] = bytes([b[i] if chr(b[i]).isalnum() else 0x61]) * rng.choice([250, 253, 254, 255, 256, 257, 258, 259, 260, 300, 1000])
         elif k == 10:                         # deep nesting: wrap
-            d = rng.choice([19, 20, 21, 22, 64, 300, 999, 1000, 1001, 2000]) if parser in ("xml", "json") else rng.choice([20, 64, 300, 512])
+            d = rng.choice([19, 20, 21, 22, 64, 300, 999, 1000, 1001, 2000] + ([30000] if parser == "json" else [])) if parser in ("xml", "json") else rng.choice([20, 64, 300, 512])
             if parser == "xml":
                 nm = rng.choice([b"a", b"w", b"ab"]); b = bytearray((b"<" + nm + b">") * d + bytes(b) + (b"</" + nm + b">") * rng.choice([d, d, d - 1, 0]))
             elif parser == "json":
@@ -585,8 +649,9 @@ def one_input(rng, parser):
     if r < 0.55:
         return "valid", doc
     m = mutate(rng, parser, doc)
-    if len(m) > 70000:
-        m = m[:70000]
+    cap = 200000 if parser == "json" else 70000      # {"a": nested 30000 deep is 150 kB
+    if len(m) > cap:
+        m = m[:cap]
     return "mutated", m
 
 
@@ -611,6 +676,11 @@ def _gen_batch(args):
     for k in range(0, len(plan), BATCH):
         ops, streams = [], {}
         for p in plan[k:k + BATCH]:
+            if p == "xml" and rng.random() < 0.15:
+                data, o = gen_xml_strict(rng)
+                ops.append("p xml %s%s" % (hx(data), o))
+                streams["xml/strict"] = streams.get("xml/strict", 0) + 1
+                continue
             stream, data = one_input(rng, p)
             ops.append("p %s %s%s" % (p, hx(data), opts_for(rng, p)))
             key = p + "/" + stream
@@ -660,9 +730,36 @@ def cbor_head_cases(rng):
     return cases
 
 
+PREFIX_DOCS = {"date": 14, "uuid": 4, "ipv4": 6, "ipv6": 6, "u64": 4, "uri": 10, "query": 6, "uridec": 6, "xml": 8, "json": 8, "cbor": 8,
+               "cbor_consume": 8, "b64": 4, "b64p": 2, "hex": 2, "utf8": 4}
+
+
+def prefix_cases(rng):
+    """truncation at EVERY prefix: for a few short documents per parser (valid, and mutated ones), every prefix as its own
+    exact-size block"""
+    cases = []
+    for parser, m in PREFIX_DOCS.items():
+        ops = []
+        for j in range(m):
+            doc = b""
+            for _ in range(20):
+                doc = GEN[parser](rng, rng.choice([8, 24, 48]))
+                if 0 < len(doc) <= 160:
+                    break
+            doc = doc[:160]
+            if j % 2:
+                doc = mutate(rng, parser, doc)[:160]
+            o = opts_for(rng, parser)
+            for k in range(len(doc) + 1):
+                ops.append("p %s %s%s" % (parser, hx(doc[:k]), o))
+        for k in range(0, len(ops), 300):
+            cases.append(Case(ops[k:k + 300], {"streams": {parser + "/prefixes": len(ops[k:k + 300])}}))
+    return cases
+
+
 def gen_cases(rng, tier):
     # thorough: the first round only; extra_stages runs the remaining rounds (memory: hex text of a round ~ 0.3 GB)
-    return cbor_head_cases(rng) + gen_inputs(rng, QUICK_TOTAL if tier == "quick" else THOROUGH_ROUND)
+    return cbor_head_cases(rng) + prefix_cases(rng) + gen_inputs(rng, QUICK_TOTAL if tier == "quick" else THOROUGH_ROUND)
 
 
 # ------------------------------------------------------------------------------------------------ oracle
@@ -680,6 +777,95 @@ def _walk(case, lines):
 
 def _short(op):
     return op if len(op) <= 300 else op[:200] + "...(%d chars)" % len(op)
+
+
+def _fnv_kv(data):
+    """the framing aws_query_string_next_param must produce: non-empty '&'-separated pieces, each cut at its first '='"""
+    h, count, pos = 14695981039346656037, 0, 0
+    for seg in data.split(b"&"):
+        if seg:
+            count += 1
+            e = seg.find(b"=")
+            t = "%d,%d,%d,%d;" % ((pos, len(seg), pos + len(seg), 0) if e < 0 else (pos, e, pos + e + 1, len(seg) - e - 1))
+            for ch in t.encode():
+                h = ((h ^ ch) * 1099511628211) & 0xFFFFFFFFFFFFFFFF
+        pos += len(seg) + 1
+    return count, h
+
+
+_HEXV = {c: int(chr(c), 16) for c in b"0123456789abcdefABCDEF"}
+
+
+def _u64_ref(data, base):
+    if not data:
+        return "ERR AWS_ERROR_INVALID_ARGUMENT"
+    v = 0
+    for c in data:
+        d = _HEXV.get(c, 255)
+        if d >= base:
+            return "ERR AWS_ERROR_INVALID_ARGUMENT"
+        v = v * base + d
+        if v >= 1 << 64:
+            return "ERR AWS_ERROR_OVERFLOW_DETECTED"
+    return "OK v=%d" % v
+
+
+def _cbor_ref(parser, data):
+    """expected 'OK items=N' when the whole input is a sequence of well-formed items without unassigned simple values, else None"""
+    from lib import cbor_ref
+    if len(data) > 4096 or not data:
+        return None
+    try:
+        els = cbor_ref.elements(data)
+        if any(e.kind == "simple" for e in els):
+            return None
+        pos, items = 0, 0
+        while pos < len(data):
+            pos = cbor_ref.well_formed(data, pos)
+            items += 1
+    except cbor_ref.Malformed:
+        return None
+    except Exception:
+        return None
+    return "OK items=%d" % (len(els) if parser == "cbor" else items)
+
+
+def _reference_errors(op, ls):
+    """clauses checked against an independent reference: a parser that mis-frames its input (wrong element count, wrong
+    parameter boundaries, wrong number) while staying in bounds"""
+    t = op.split(" ")
+    if len(t) < 3 or t[0] != "p":
+        return []
+    parser = t[1]
+    if parser not in ("xml", "query", "u64", "cbor", "cbor_consume"):
+        return []
+    if parser == "xml":
+        exp = [x for x in t[3:] if x.startswith("expect=")]
+        if not exp:
+            return []
+        n, b, bl = exp[0][7:].split(",")
+        want = "OK nodes=%s bodies=%s bodylen=%s " % (n, b, bl)
+        return [] if any(l.startswith("P xml blk parse " + want) for l in ls) else ["well-formed document inside the limits, expected `%s`" % want.strip()]
+    try:
+        data = b"" if t[2] == "-" else bytes.fromhex(t[2])
+    except ValueError:
+        return []
+    if parser == "query":
+        count, h = _fnv_kv(data)
+        want = "params=%d kv=%016x " % (count, h)
+        return [] if any(l.startswith("P query blk iterate OK " + want) for l in ls) else ["query framing, expected `%s`" % want.strip()]
+    if parser == "u64":
+        out = []
+        for name, base in (("dec", 10), ("hex", 16)):
+            want = "P u64 blk %s %s " % (name, _u64_ref(data, base))
+            if not any(l.startswith(want) for l in ls):
+                out.append("expected `%s`" % want.strip())
+        return out
+    want = _cbor_ref(parser, data)
+    if want is None:
+        return []
+    head = "P %s blk %s %s " % (parser, "decode_all" if parser == "cbor" else "consume", want)
+    return [] if any(l.startswith(head) for l in ls) else ["well-formed CBOR, expected `%s`" % head.strip()]
 
 
 def oracle(case, lines):
@@ -701,6 +887,8 @@ def oracle(case, lines):
                 errs.append("%s -> UBSan: %s" % (_short(op), l.strip()))
         if ended:
             done += 1
+            for e in _reference_errors(op, ls):
+                errs.append("%s -> %s; got %s" % (_short(op), e, [l for l in ls if l.startswith("P ")][:2]))
     if done != len(case.ops) and not errs:
         errs.append("implementation produced results for %d of %d ops" % (done, len(case.ops)))
     return errs
@@ -866,7 +1054,7 @@ def _minimise_bytes(case, fails, budget_s=12):
     if len(case.ops) != 1:
         return
     t = case.ops[0].split(" ")
-    if len(t) < 3 or t[0] != "p" or t[1] == "cbor_consume_nested" or t[2] == "-":
+    if len(t) < 3 or t[0] != "p" or t[1] == "cbor_consume_nested" or t[2] == "-" or any(x.startswith("expect=") for x in t[3:]):
         return
     data = bytes.fromhex(t[2])
     mk = lambda d: " ".join(t[:2] + [hx(d)] + t[3:])
@@ -1059,8 +1247,11 @@ MANIFEST = dict(
           "(ipv6, ipv4, uuid, uuid to_str + round trip, percent-decoding with decoded bytes) against the code rebuilt from the working tree. "
           "(2) Sanitizer-monitored execution of EVERY decoder of the current tree on arbitrary bytes (valid / mutated / random streams, "
           "every input an exact-size heap copy and also the NULL/0 view, every CBOR head x every truncation, texts ending in an incomplete "
-          "escape or right after '@', canary-filled exact-size outputs, view-range checks, error-channel check, watchdog; 155 000 inputs "
-          "quick, 3.2 M thorough). cJSON (aws_json_value_new_from_string), what sscanf does inside libc (UUID, IPv4) and the AVX2 base64 "
+          "escape or right after '@', every prefix of short valid and mutated documents, canary-filled exact-size outputs with pre-existing content, view-range checks, "
+          "error-channel check, watchdog, and framing checks against independent references — XML node/body counts of generated in-limit "
+          "documents with their callback programs, CBOR element / item counts of well-formed input (lib/cbor_ref.py), query parameter "
+          "boundaries, unsigned-integer values, URI components tiling the text, AVX2-dispatch vs portable base64 verdicts, a reused UTF-8 "
+          "decoder behaving like a fresh one, dt.tz staying NUL-terminated; 160 000 inputs quick, 3.2 M thorough). cJSON (aws_json_value_new_from_string), what sscanf does inside libc (UUID, IPv4) and the AVX2 base64 "
           "codec have no model: for them C04 is decided by the sanitizer-monitored execution alone. Open finding F6: "
           "aws_cbor_decoder_consume_next_whole_data_item recurses once per nesting level without a limit (stack overflow beyond ~52 000 "
           "levels in the ASan build, ~131 000 at -O2, 8 MiB stack); CBOR totality is claimed only below that depth."),
